@@ -393,6 +393,14 @@ func InputForm(form, setup string) (cwd, input, gofile string) {
 	case "gofile-with-dir":
 		// not what go generate does, but what a user may: GOFILE with directory components
 		return modRoot, "", relFromMod
+	case "go-generate-from-parent":
+		// //go:generate convergen conv/setup.go in a file (gen.go) of the PARENT
+		// directory's package: go generate runs the command there, with GOFILE and
+		// GOPACKAGE describing gen.go, not the setup file
+		if dir != modRoot {
+			return filepath.Dir(dir), filepath.Base(dir) + "/" + base, "gen.go"
+		}
+		return dir, base, "gen.go"
 	case "gofile-overridden":
 		// GOFILE names something else; the argument is the input
 		return dir, base, "doc.go"
